@@ -210,3 +210,40 @@ pub fn cell_widening_programs() -> Vec<String> {
     }
     out
 }
+
+/// a name bound to a value that is not a constant, then rebound from its own old value to a value
+/// of another type, and used at the new type: in every kind of body, once and twice
+pub fn redeclaration_programs() -> Vec<String> {
+    // (first declaration of v, projections that make sense for it)
+    let decls: [(&str, &[&str]); 9] = [
+        ("v := [h()]", &["v := v[0]", "v := v[-1] + 1", "v := v~", "v := v + [\"s\"]", "v := std.len(v)", "v := v[0:1]", "(v, w) := (v[0], v)"]),
+        ("v := (h(), \"s\")", &["v := v.0", "v := v.1", "(v, w) := v", "(w, v) := v", "v := (v.1, v.0)", "v := [v]"]),
+        ("v := ((h(), 1), 2)", &["v := v.0", "v := v.0.0", "(v, w) := v"]),
+        ("v := struct{a := h(), b := \"s\"}", &["v := v.a", "v := v.b", "v := struct{a := v}", "v := [v.a, v.a]"]),
+        ("v := mut h()", &["v := *v", "v := *v + 1", "v := [v]", "v := v += 1"]),
+        ("v := (a: int) -> int { return a + h(); }", &["v := v(1)", "v := [v(1), v(2)]", "v := (v(1), v)", "v := (b: string) -> string { return b + v(1); }"]),
+        ("v := [h(), h()]~", &["v := v $]", "v := v $+", "v := v()", "v := v().1", "v := v ? (a: int) -> bool { return true; }"]),
+        ("v := \"s\" + h()", &["v := std.len(v)", "v := [v]", "v := v[0]", "v := v~"]),
+        ("v := if h() > 0 { h() } else { \"s\" }", &["v := match v { i: int => [i], s: string => s, }", "v := [v]", "v := if i: int = v { i + 1 } else { 0 }"]),
+    ];
+    let uses = ["v", "(v, v)", "[v]"];
+    let mut out = vec![];
+    for (decl, projections) in decls {
+        for p in projections {
+            for u in uses {
+                let body = format!("{decl}; {p}; {u}");
+                out.push(format!("h := () -> int {{ return 3; }}; {body}"));
+                out.push(format!("h := () -> int {{ return 3; }}; {decl}; {p}; {p}; {u}"));
+                out.push(format!("h := () -> int {{ return 3; }}; r := {{ {body} }}; r"));
+                out.push(format!("h := () -> int {{ return 3; }}; g := () -> any {{ {decl}; {p}; return {u}; }}; g()"));
+                out.push(format!("h := () -> int {{ return 3; }}; m := mod {{ {decl}; {p}; r := {u}; }}; m.r"));
+                out.push(format!("h := () -> int {{ return 3; }}; {decl}; if h() > 0 {{ {p}; {u} }}; v"));
+                out.push(format!("h := () -> int {{ return 3; }}; {decl}; for k in [1, 2]~ {{ {p}; }}; v"));
+                out.push(format!("h := () -> int {{ return 3; }}; {decl}; g := () -> any {{ {p}; return {u}; }}; {p}; (g(), v)"));
+            }
+        }
+    }
+    out.sort();
+    out.dedup();
+    out
+}
